@@ -13032,3 +13032,129 @@ mod tests {
         assert!(data.is_empty());
     }
 }
+
+// ---------------------------------------------------------------------------------------------
+// Verification hook (compiled only with `--cfg neumann_verif`): export / import of the complete
+// protocol state of a node, so that an explicit-state model checker can rebuild a node from a
+// snapshot, run one real handler on it, and read the successor state back.
+// ---------------------------------------------------------------------------------------------
+#[cfg(neumann_verif)]
+#[derive(Debug, Clone)]
+pub struct VerifRaftState {
+    pub current_term: u64,
+    pub voted_for: Option<NodeId>,
+    pub log: Vec<LogEntry>,
+    pub log_base_index: u64,
+    pub commit_index: u64,
+    pub last_applied: u64,
+    pub role: RaftState,
+    pub current_leader: Option<NodeId>,
+    /// (`next_index`, `match_index`, `backoff_failures`) when leader
+    pub leader: Option<(
+        std::collections::BTreeMap<NodeId, u64>,
+        std::collections::BTreeMap<NodeId, u64>,
+        std::collections::BTreeMap<NodeId, u32>,
+    )>,
+    pub votes_received: Vec<NodeId>,
+    pub pre_votes_received: Vec<NodeId>,
+    pub in_pre_vote: bool,
+    /// no heartbeat within the minimum election timeout
+    pub heartbeat_stale: bool,
+    /// quorum tracker: peer -> answered recently
+    pub responded: std::collections::BTreeMap<NodeId, bool>,
+    /// quorum tracker: peer -> consecutive failures
+    pub failures: std::collections::BTreeMap<NodeId, u32>,
+}
+
+#[cfg(neumann_verif)]
+impl RaftNode {
+    pub fn verif_export(&self) -> VerifRaftState {
+        let p = self.persistent.read();
+        let v = self.volatile.read();
+        let l = self.leadership.read();
+        #[allow(clippy::cast_possible_truncation)]
+        let stale = self.last_heartbeat.read().elapsed().as_millis() as u64 > self.config.election_timeout.0;
+        let timeout = self.quorum_tracker.response_timeout;
+        VerifRaftState {
+            current_term: p.current_term,
+            voted_for: p.voted_for.clone(),
+            log: p.log.clone(),
+            log_base_index: p.log_base_index,
+            commit_index: v.commit_index,
+            last_applied: v.last_applied,
+            role: l.role,
+            current_leader: l.current_leader.clone(),
+            leader: l.leader_volatile.as_ref().map(|ls| {
+                (
+                    ls.next_index.iter().map(|(k, v)| (k.clone(), *v)).collect(),
+                    ls.match_index.iter().map(|(k, v)| (k.clone(), *v)).collect(),
+                    ls.backoff_failures.iter().map(|(k, v)| (k.clone(), *v)).collect(),
+                )
+            }),
+            votes_received: self.votes_received.read().clone(),
+            pre_votes_received: self.pre_votes_received.read().clone(),
+            in_pre_vote: *self.in_pre_vote.read(),
+            heartbeat_stale: stale,
+            responded: self
+                .quorum_tracker
+                .last_response
+                .read()
+                .iter()
+                .map(|(k, t)| (k.clone(), t.elapsed() < timeout))
+                .collect(),
+            failures: self
+                .quorum_tracker
+                .consecutive_failures
+                .read()
+                .iter()
+                .map(|(k, v)| (k.clone(), *v))
+                .collect(),
+        }
+    }
+
+    pub fn verif_import(&self, s: &VerifRaftState) {
+        let long_ago = Duration::from_secs(3600);
+        let now = Instant::now();
+        let past = now.checked_sub(long_ago).unwrap_or(now);
+        {
+            let mut p = self.persistent.write();
+            p.current_term = s.current_term;
+            p.voted_for.clone_from(&s.voted_for);
+            p.log.clone_from(&s.log);
+            p.log_base_index = s.log_base_index;
+        }
+        {
+            let mut v = self.volatile.write();
+            v.commit_index = s.commit_index;
+            v.last_applied = s.last_applied;
+        }
+        {
+            let mut l = self.leadership.write();
+            l.role = s.role;
+            l.current_leader.clone_from(&s.current_leader);
+            l.leader_volatile = s.leader.as_ref().map(|(n, m, b)| LeaderVolatileState {
+                next_index: n.iter().map(|(k, v)| (k.clone(), *v)).collect(),
+                match_index: m.iter().map(|(k, v)| (k.clone(), *v)).collect(),
+                backoff_failures: b.iter().map(|(k, v)| (k.clone(), *v)).collect(),
+            });
+        }
+        self.votes_received.write().clone_from(&s.votes_received);
+        self.pre_votes_received.write().clone_from(&s.pre_votes_received);
+        *self.in_pre_vote.write() = s.in_pre_vote;
+        *self.last_heartbeat.write() = if s.heartbeat_stale { past } else { now };
+        {
+            let mut r = self.quorum_tracker.last_response.write();
+            r.clear();
+            for (k, fresh) in &s.responded {
+                r.insert(k.clone(), if *fresh { now } else { past });
+            }
+        }
+        {
+            let mut f = self.quorum_tracker.consecutive_failures.write();
+            f.clear();
+            for (k, v) in &s.failures {
+                f.insert(k.clone(), *v);
+            }
+        }
+    }
+}
